@@ -210,7 +210,7 @@ pub fn run(ctx: &mut Ctx) {
     // an inner overflow is an error even when the outer operands would cancel it, an inner call has its own
     // operand-count rules
     {
-        let g: Vec<Value> = ["0.1", "0.2", "0.3", "1e308", "-1e308", "1e-200", "1e200", "9007199254740992", "1", "-1", "3", "\"x\"", "\"-Infinity\"", "\"1e309\"", "5e-324", "0.5"].iter().map(|t| al::parse(t)).collect();
+        let g: Vec<Value> = ["0.1", "0.2", "0.3", "1e308", "-1e308", "1e-200", "1e200", "9007199254740992", "1", "-1", "3", "\"x\"", "\"-Infinity\"", "\"1e309\"", "5e-324", "0.5", "0", "-0.0", "\"0\""].iter().map(|t| al::parse(t)).collect();
         for x in &g {
             for y in &g {
                 if !ctx.mine() {
@@ -221,6 +221,9 @@ pub fn run(ctx: &mut Ctx) {
                     for k in ["+", "*", "max", "min"] {
                         ctx.check(&format!("{}:grouping:right", k), &op(k, vec![x.clone(), op(k, vec![y.clone(), z.clone()])]), &null);
                         ctx.check(&format!("{}:grouping:left", k), &op(k, vec![op(k, vec![x.clone(), y.clone()]), z.clone()]), &null);
+                    }
+                    for k in ["+", "*", "max", "min"] {
+                        ctx.check(&format!("{}:grouping:flat", k), &op(k, vec![x.clone(), y.clone(), z.clone()]), &null);
                     }
                     ctx.check("+:grouping:minus", &json!({"+": [x, {"-": [y, z]}]}), &null);
                     ctx.check("*:grouping:div", &json!({"*": [x, {"/": [y, z]}]}), &null);
